@@ -10,6 +10,29 @@
 //! flags: comma list of adv,async,reload,close | all | none
 //! stdout: one line `R {json}` per scenario (TestLogger floods stdout with everything else).
 //! stderr: histogram at the end.
+//!
+//! Notes for the consumer of the `R` lines:
+//! * every wire message gets a scenario-unique id `"m"`, present in the sender's `sent` entry and in
+//!   the args of the `deliver` step; `deliver` args show the message AS DELIVERED (after corruption).
+//!   `sent` entries that were never queued (gossip, link down) carry `"drop":true`; an error/warning
+//!   after which the sender wants to disconnect carries `"disc":true` (the forced `disconnect` step
+//!   follows its delivery).
+//! * signer calls are attributed by `SignerCall::state_id` (node-local signer state); the two ends
+//!   are also given distinct channel_keys_ids (`keys`).
+//! * not reproducible across processes inside LDK (randomly keyed std HashMaps in the on-chain claim
+//!   code) and therefore canonicalised here: transactions broadcast within one drain are sorted by
+//!   txid; every maximal contiguous run of sign_holder / sign_holder_htlc / unsafe_sign_holder log
+//!   entries is sorted. Multisets and positions relative to all other entries are preserved.
+//! * per scenario (from the Rng) each destructive family -- corruption, user force-close, stale
+//!   reload, fabricated RAA -- is active with probability 1/2 and only from a random start step, so
+//!   that channel lifetimes are spread; within that, actions are picked by fixed weights.
+//! * flag adv additionally delivers `raa_extra`: a fabricated revoke_and_ack "revoking" the peer's
+//!   current commitment while the receiver is not awaiting any (args.corrupt = "raa_extra", no
+//!   matching `sent`).
+//! * a (stale) reload replays the blocks the restored manager has not seen before anything else
+//!   (args.replayed); a reload switches that node's persister back to synchronous.
+//! * everything a scenario allocates is leaked (about 2-3 MB per scenario): run at most a few hundred
+//!   scenarios per process.
 use std::cell::RefCell;
 use std::collections::{BTreeMap, HashMap, VecDeque};
 use std::mem::ManuallyDrop;
@@ -1045,7 +1068,7 @@ fn run_scenario(seed: u64, k: u64, max_steps: u64, flags: &Flags, rec: &Rc<RefCe
 	let adv_start = if flags.adv && adv_on { adv_at } else { u64::MAX };
 	let close_start = if flags.close && close_on { close_at } else { u64::MAX };
 	let stale_start = if flags.reload && stale_on { stale_at } else { u64::MAX };
-	let extra_on = rng.below(3) == 0;
+	let extra_on = rng.below(2) == 0;
 
 	for step in 0..max_steps {
 		let views = [w.view(0), w.view(1)];
@@ -1068,7 +1091,7 @@ fn run_scenario(seed: u64, k: u64, max_steps: u64, flags: &Flags, rec: &Rc<RefCe
 			if flags.adv && extra_on && step >= adv_start && w.connected {
 				for n in 0..2 {
 					if views[n].as_ref().map(|v| !v.awaiting_remote_revoke && v.counterparty_next > 0).unwrap_or(false) {
-						en.push((1, Act::Extra(n)));
+						en.push((4, Act::Extra(n)));
 					}
 				}
 			}
